@@ -1,4 +1,7 @@
 import OpacusLean.Model.Clip
+import OpacusLean.Model.GhostNorm
+import OpacusLean.Model.ClipStep
+set_option linter.unusedSectionVars false
 /-! The array-backed executable forms equal the function-typed model (any scalar type). -/
 namespace Opacus.Clip
 
@@ -38,4 +41,136 @@ theorem clipAndAccumulateExec_store (m : Mode R P) (sg : Option (Grad R d))
   rw [batchSumExec_store]
   cases sg <;> simp [accumulateExec, accumulate]
 
+
 end Opacus.Clip
+
+namespace Opacus.Ghost
+open Opacus.Clip
+variable {R : Type} {P : Nat} {d : Fin P → Nat}
+variable [Add R] [Mul R] [Div R] [Zero R] [One R] [Min R] [OfScientific R] [HasSqrt R]
+
+theorem wsumExec_store (l : List (R × Grad R d)) :
+    wsumExec d (l.map fun cg => (cg.1, store cg.2)) = store (wsum l) := by
+  unfold wsumExec wsum
+  generalize (gzero : Grad R d) = a
+  induction l generalizing a with
+  | nil => rfl
+  | cons x xs ih => simp only [List.map_cons, List.foldl_cons, lookup_store]; exact ih _
+
+theorem zip_map_store (cs : List R) (gs : List (Grad R d)) :
+    cs.zip (gs.map store) = (cs.zip gs).map fun cg => (cg.1, store cg.2) := by
+  induction cs generalizing gs with
+  | nil => simp
+  | cons c cs ih => cases gs with
+    | nil => simp
+    | cons g gs => simp [ih]
+
+/-- what the C02 driver runs for the ghost path is the model's `ghostAccumulate` -/
+theorem ghostAccumulateExec_store (v : Variant) (s : LossShape) (C : R) (sg : Option (Grad R d))
+    (batch : List ((Fin P → R) × Grad R d)) :
+    ghostAccumulateExec d v s C (sg.map store) (batch.map fun x => (storeVec x.1, store x.2))
+      = (ghostAccumulate v s C sg batch).map store := by
+  unfold ghostAccumulateExec ghostAccumulate ghostBatchGrad
+  simp only [List.map_map, Function.comp_def, lookupVec_storeVec]
+  rw [show (batch.map fun x => store x.2) = (batch.map (·.2)).map store by simp [List.map_map, Function.comp_def],
+    zip_map_store, wsumExec_store]
+  cases sg <;> simp [accumulateExec, accumulate]
+
+end Opacus.Ghost
+
+namespace Opacus.Step
+open Opacus.Clip
+variable {G H R : Type}
+
+/-- transport of a machine state along a change of gradient representation -/
+def St.map (φ : G → H) (st : St G) : St H :=
+  ⟨st.gradSample.map (·.map φ), st.summed.map φ, st.grad.map φ, st.skipQueue, st.lastSkipped⟩
+
+structure CarrierHom (φ : G → H) (c₁ : Carrier G R) (c₂ : Carrier H R) : Prop where
+  clipAcc : ∀ sg l, c₂.clipAcc (Option.map φ sg) (List.map φ l) = (c₁.clipAcc sg l).map φ
+  acc : ∀ sg g, c₂.acc (Option.map φ sg) (φ g) = (c₁.acc sg g).map φ
+  add : ∀ a b, c₂.add (φ a) (φ b) = φ (c₁.add a b)
+  divS : ∀ a r, c₂.divS (φ a) r = φ (c₁.divS a r)
+  natCast : c₂.natCast = c₁.natCast
+
+variable {φ : G → H} {c₁ : Carrier G R} {c₂ : Carrier H R}
+
+theorem backward_map (st : St G) (b : List G) :
+    backward (st.map φ) (b.map φ) = (backward st b).map φ := by
+  simp [backward, St.map]
+
+theorem signalSkip_map (st : St G) (b : Bool) : signalSkip (st.map φ) b = (signalSkip st b).map φ := rfl
+
+theorem zeroGrad_map (st : St G) : zeroGrad (st.map φ) = (zeroGrad st).map φ := by
+  cases h : st.lastSkipped <;> simp [zeroGrad, St.map, h]
+
+theorem ghostBackward_map (st : St G) (g : G) :
+    ghostBackward (st.map φ) (φ g) = (ghostBackward st g).map φ := by
+  cases h : st.lastSkipped <;> simp [ghostBackward, zeroGrad, St.map, h]
+
+theorem release_map (h : CarrierHom φ c₁ c₂) (red : Reduction) (E k : Nat) (s z : G) :
+    release c₂ red E k (φ s) (φ z) = φ (release c₁ red E k s z) := by
+  cases red <;> simp [release, h.add, h.divS, h.natCast]
+
+/-- `pre_step` commutes with the change of representation: the driver's run *is* the model's run -/
+theorem preStep_map (h : CarrierHom φ c₁ c₂) (red : Reduction) (E : Nat) (z : G) (st : St G) :
+    preStep c₂ red E (φ z) (st.map φ) =
+      (preStep c₁ red E z st).map fun p => (p.1.map φ, p.2) := by
+  unfold preStep
+  have e1 : (st.map φ).gradSample.isEmpty = st.gradSample.isEmpty := by
+    cases hg : st.gradSample <;> simp [St.map, hg]
+  have e2 : (st.map φ).gradSample.flatten = st.gradSample.flatten.map φ := by
+    simp [St.map, List.map_flatten]
+  have e3 : (st.map φ).gradSample.length = st.gradSample.length := by simp [St.map]
+  rw [e1, e2, e3]
+  by_cases hE : st.gradSample.isEmpty = true
+  · simp [hE]
+  · simp only [hE, Bool.false_eq_true, if_false]
+    have : (st.map φ).summed = Option.map φ st.summed := rfl
+    rw [this, h.clipAcc]
+    cases c₁.clipAcc st.summed st.gradSample.flatten with
+    | none => rfl
+    | some s =>
+      simp only [Option.map_some]
+      have : (st.map φ).skipQueue = st.skipQueue := rfl
+      rw [this]
+      cases (popSkip st.skipQueue) with
+      | mk skip q => cases skip <;> simp [St.map, release_map h]
+
+theorem ghostPreStep_map (h : CarrierHom φ c₁ c₂) (red : Reduction) (E : Nat) (z : G) (st : St G) :
+    ghostPreStep c₂ red E (φ z) (st.map φ) =
+      (ghostPreStep c₁ red E z st).map fun p => (p.1.map φ, p.2) := by
+  unfold ghostPreStep
+  have e0 : (st.map φ).grad = Option.map φ st.grad := rfl
+  rw [e0]
+  cases st.grad with
+  | none => rfl
+  | some g =>
+    simp only [Option.map_some]
+    have : (st.map φ).summed = Option.map φ st.summed := rfl
+    rw [this, h.acc]
+    cases c₁.acc st.summed g with
+    | none => rfl
+    | some s =>
+      simp only [Option.map_some]
+      have : (st.map φ).skipQueue = st.skipQueue := rfl
+      rw [this]
+      cases (popSkip st.skipQueue) with
+      | mk skip q => cases skip <;> simp [St.map, release_map h]
+
+section inst
+variable {R : Type} [Add R] [Mul R] [Div R] [Zero R] [One R] [Min R] [OfScientific R] [HasSqrt R]
+variable {P : Nat} (d : Fin P → Nat)
+
+/-- the executable carrier of the drivers simulates the model carrier of the theorems -/
+theorem execCarrier_hom (m : Mode R P) (nc : Nat → R) :
+    CarrierHom (store (d := d)) (modelCarrier d m nc) (execCarrier d m nc) where
+  clipAcc := fun sg l => clipAndAccumulateExec_store m sg l
+  acc := fun sg g => by cases sg <;> simp [execCarrier, modelCarrier, accumulateExec, accumulate]
+  add := fun a b => by simp [execCarrier, modelCarrier]
+  divS := fun a r => by simp [execCarrier, modelCarrier]
+  natCast := rfl
+
+end inst
+
+end Opacus.Step
